@@ -22,32 +22,35 @@ func keyHas(subs ...string) func(string) bool {
 }
 
 func init() {
-	prop("C01", []string{"FILTERED", "MGETSORT", "NOROWDROP", "GETNIL", "BYTESFRESH", "DISPATCH", "TWINPRIM", "PRIMWIRE", "OPMAPS", "ASTIMMUT"},
-		"Structural necessary conditions of C01, for every access path and both iteration modes: FILTERED (a pair leaves a scan only under the true result of the full filter applied to that same pair), NOROWDROP (no loop over a fetched batch drops already-consumed rows), MGETSORT (point reads are returned in sorted key order), GETNIL (a stored pair with an empty value is a pair), BYTESFRESH (evaluation never appends into memory it did not allocate, so stored values come back unmodified), DISPATCH/TWINPRIM/PRIMWIRE/OPMAPS (each operator the user writes is routed, in both modes, to the Go primitive the documentation names, with the same operator literal and operand order; conversion/string functions reach their documented primitives), ASTIMMUT (evaluation does not mutate the expression tree, so repetitions agree).",
+	prop("C01", []string{"FILTERED", "MGETSORT", "NOROWDROP", "GETNIL", "BYTESFRESH", "DISPATCH", "TWINPRIM", "PRIMWIRE", "OPMAPS", "ASTIMMUT", "ROWINDEX", "EVALBOTH", "STICKYFLAG", "REORDERGUARD", "FOLDKIND", "FOLDERR", "FOLDFLAGS", "ROWCARRY"},
+		"Structural necessary conditions of C01, for every access path and both iteration modes: FILTERED (a pair leaves a scan only under the true result of the full filter applied to that same pair), NOROWDROP (no loop over a fetched batch drops already-consumed rows), MGETSORT (point reads are returned in sorted key order), GETNIL (a stored pair with an empty value is a pair), BYTESFRESH (evaluation never appends into memory it did not allocate, so stored values come back unmodified), DISPATCH/TWINPRIM/PRIMWIRE/OPMAPS (each operator the user writes is routed, in both modes, to the Go primitive the documentation names, with the same operator literal and operand order; conversion/string functions reach their documented primitives), ASTIMMUT (evaluation does not mutate the expression tree, so repetitions agree). ROWINDEX/ROWCARRY (a vector operator reads row-dependent operands per row, never from a fixed row of the chunk nor from a value computed for an earlier row and carried along), EVALBOTH (vector operators evaluate both operands), STICKYFLAG with FOLDKIND/FOLDERR/FOLDFLAGS/REORDERGUARD (the predicate that is executed is the predicate that was written: the rewriter's structural side conditions, shared with C04).",
 		"The end-to-end row set needs evaluation of predicates on values; duplicates from repeated/overlapping IN literals and literal-on-the-left comparisons are not structurally decidable (DESIGN.md §6).")
 	propTable["C01"].KeyFilter["NOROWDROP"] = keyHas("ScanPlan", "MultiGetPlan", "ProjectionPlan")
 
-	prop("C02", []string{"PLANMAP", "ROUTE", "NARROWONLYKEY", "SELECTMINMAX", "ROLECHAIN", "FILTERED", "RMGUARD", "NOROWDROP", "GETNIL", "RANGEALG"},
-		"Structural necessary conditions of C02: ROUTE (an operator reaches only the region handler its executor semantics justify; anything else is FULL), NARROWONLYKEY (a narrowing region only for atoms on `key`, with bounds taken from the atom's literals), SELECTMINMAX (OR falls back to the wider operand), PLANMAP (scan kinds map to the matching plan, ill-formed cases to the full scan, and the access path is not replaced afterwards), ROLECHAIN (start/end/prefix reach Seek and the stop tests in the right roles, inclusive end, nil-guarded), FILTERED (over-approximated regions are harmless because every pair is filtered), RMGUARD (DELETE drops the filter only for pure key sets), NOROWDROP/GETNIL (no consumed row or empty-valued pair is lost on the narrowed paths).",
+	prop("C02", []string{"PLANMAP", "ROUTE", "NARROWONLYKEY", "SELECTMINMAX", "ROLECHAIN", "FILTERED", "RMGUARD", "NOROWDROP", "GETNIL", "RANGEALG", "STICKYFLAG"},
+		"Structural necessary conditions of C02: ROUTE (an operator reaches only the region handler its executor semantics justify; anything else is FULL), NARROWONLYKEY (a narrowing region only for atoms on `key`, with bounds taken from the atom's literals), SELECTMINMAX (OR falls back to the wider operand), PLANMAP (scan kinds map to the matching plan, ill-formed cases to the full scan, and the access path is not replaced afterwards), ROLECHAIN (start/end/prefix reach Seek and the stop tests in the right roles, inclusive end, nil-guarded), FILTERED (over-approximated regions are harmless because every pair is filtered), RMGUARD (DELETE drops the filter only for pure key sets), NOROWDROP/GETNIL (no consumed row or empty-valued pair is lost on the narrowed paths). STICKYFLAG (an IN list or BETWEEN pair narrows the scan only if every element is a literal; the flag recording that is never set back by a later element).",
 		"The interval case analysis of union*/intersection*/inRange and the side of the literal ('b' > key) depend on order relations among literals (DESIGN.md §6).")
 	propTable["C02"].KeyFilter["SELECTMINMAX"] = keyHas("|OR|")
+	propTable["C02"].KeyFilter["STICKYFLAG"] = keyHas("FilterOptimizer")
 	propTable["C02"].KeyFilter["NOROWDROP"] = keyHas("ScanPlan", "MultiGetPlan")
 
-	prop("C03", []string{"NOROWDROP", "CONSUMED", "FETCHLOOPEND", "CACHECOPY", "ADJUSTCALL", "ARITY", "LISTCOVER", "BODYKIND", "ASTIMMUT", "DISPATCH", "TWINPRIM", "LIMITGATE", "ERRPROP"},
-		"Structural necessary conditions of C03 (agreement of the row and batch twins): DISPATCH/TWINPRIM (both modes route every operator to corresponding helpers reaching the same primitives with the same literals), BODYKIND (row and vector bodies box the same kinds), ARITY (both modes apply both arity tests), LISTCOVER (both modes handle the same list representations), NOROWDROP/CONSUMED/LIMITGATE/FETCHLOOPEND (batch loops neither drop consumed rows, nor emit skipped ones, nor bypass the limit, nor spin), CACHECOPY/ADJUSTCALL/ASTIMMUT (the chunk cache and the tree are not corrupted by in-place vector operators), ERRPROP on both twins of every plan.",
+	prop("C03", []string{"NOROWDROP", "CONSUMED", "FETCHLOOPEND", "CACHECOPY", "ADJUSTCALL", "ARITY", "LISTCOVER", "BODYKIND", "ASTIMMUT", "DISPATCH", "TWINPRIM", "LIMITGATE", "ERRPROP", "EVALBOTH", "FRESHROWS", "ROWINDEX", "ROWCARRY"},
+		"Structural necessary conditions of C03 (agreement of the row and batch twins): DISPATCH/TWINPRIM (both modes route every operator to corresponding helpers reaching the same primitives with the same literals), BODYKIND (row and vector bodies box the same kinds), ARITY (both modes apply both arity tests), LISTCOVER (both modes handle the same list representations), NOROWDROP/CONSUMED/LIMITGATE/FETCHLOOPEND (batch loops neither drop consumed rows, nor emit skipped ones, nor bypass the limit, nor spin), CACHECOPY/ADJUSTCALL/ASTIMMUT (the chunk cache and the tree are not corrupted by in-place vector operators), ERRPROP on both twins of every plan. EVALBOTH (no batch-only short circuit), ROWINDEX/ROWCARRY (no batch-only reuse of row 0 or of an earlier row's operand), FRESHROWS (batch results never alias plan-owned buffers that the next call rewrites).",
 		"Equality of computed values and the refill arithmetic beyond these clauses need execution.")
 
-	prop("C04", []string{"FOLDKIND", "FOLDERR", "REORDERGUARD", "FOLDFLAGS", "BODYKIND"},
-		"Structural necessary conditions of C04: FOLDKIND (a folded literal node has the kind of the value it was folded from and is built from the typed value, not from text), FOLDERR (folding happens only when evaluation succeeded), REORDERGUARD (re-association only for + and * chains with the same operator inside and outside), BODYKIND (folded function calls box the kind their registry row declares).",
+	prop("C04", []string{"FOLDKIND", "FOLDERR", "REORDERGUARD", "FOLDFLAGS", "BODYKIND", "STICKYFLAG"},
+		"Structural necessary conditions of C04: FOLDKIND (a folded literal node has the kind of the value it was folded from and is built from the typed value, not from text), FOLDERR (folding happens only when evaluation succeeded), REORDERGUARD (re-association only for + and * chains with the same operator inside and outside), BODYKIND (folded function calls box the kind their registry row declares). STICKYFLAG (a call is folded only if every argument is a literal).",
 		"Numeric equality of folded and unfolded evaluation and the truth table of the Boolean simplifier need evaluation (DESIGN.md §6).")
 
-	prop("C05", []string{"ADJUSTCALL", "CACHECOPY", "ROWCACHE", "CHUNKKEY", "LOCKSTEP", "LISTCOVER", "ASTIMMUT"},
-		"Structural necessary conditions of C05: ROWCACHE (no per-row cache entry written for one row can be read for another: every loop feeding different rows to an evaluator through one context clears it per row or passes no context), ADJUSTCALL (the chunk cache is re-indexed by exactly the rows that passed, with a cumulative index), CACHECOPY (cache entries never alias evaluation results), CHUNKKEY (chunk cache keys frame alias name and first key), LOCKSTEP (one column per announced name), LISTCOVER(project) (row-mode projection lets through every column kind).",
+	propTable["C04"].KeyFilter["STICKYFLAG"] = keyHas("ExpressionOptimizer")
+
+	prop("C05", []string{"ADJUSTCALL", "CACHECOPY", "ROWCACHE", "CHUNKKEY", "LOCKSTEP", "LISTCOVER", "ASTIMMUT", "FRESHROWS"},
+		"Structural necessary conditions of C05: ROWCACHE (no per-row cache entry written for one row can be read for another: every loop feeding different rows to an evaluator through one context clears it per row or passes no context), ADJUSTCALL (the chunk cache is re-indexed by exactly the rows that passed, with a cumulative index), CACHECOPY (cache entries never alias evaluation results), CHUNKKEY (chunk cache keys frame alias name and first key), LOCKSTEP (one column per announced name), LISTCOVER(project) (row-mode projection lets through every column kind). FRESHROWS (returned rows own their storage).",
 		"Equality with the alias-expanded query needs execution.")
 	propTable["C05"].KeyFilter["LISTCOVER"] = keyHas("|project|")
 
-	prop("C06", []string{"ASSERT", "ARITY", "DIVGUARD", "BODYKIND", "FETCHLOOPEND", "ADJUSTCALL", "USERIDX", "ERRPROP", "ERRALL"},
-		"The panic and non-termination classes whose absence is visible in the shape of the code: ASSERT (no unchecked type assertion without a dominating test or a checked side condition), ARITY (no body is called with fewer arguments than it indexes), DIVGUARD (integer division guarded), USERIDX (slices/indexes driven by user numbers or error offsets are bounded against the sliced value's length and ordered), BODYKIND (the constant folder's assertions are safe), ADJUSTCALL (chunk cache indexes stay in range), FETCHLOOPEND (every fetch loop stops at end of stream), ERRPROP (storage errors are values).",
+	prop("C06", []string{"ASSERT", "ARITY", "DIVGUARD", "BODYKIND", "FETCHLOOPEND", "ADJUSTCALL", "USERIDX", "ERRPROP", "ERRALL", "EVALBOTH"},
+		"The panic and non-termination classes whose absence is visible in the shape of the code: ASSERT (no unchecked type assertion without a dominating test or a checked side condition), ARITY (no body is called with fewer arguments than it indexes), DIVGUARD (integer division guarded), USERIDX (slices/indexes driven by user numbers or error offsets are bounded against the sliced value's length and ordered), BODYKIND (the constant folder's assertions are safe), ADJUSTCALL (chunk cache indexes stay in range), FETCHLOOPEND (every fetch loop stops at end of stream), ERRPROP (storage errors are values). EVALBOTH (the chunk cache always holds the current chunk's alias values before the scan re-indexes it).",
 		"General index bounds, nil dereference, alias cycles (stack exhaustion) and termination of other loops are runtime quantities (DESIGN.md §6).")
 
 	prop("C07", []string{"ASSERT", "CMPDIR", "ORDERELIDE", "ORDERDEFAULT", "DRAINALL", "MGETSORT", "NOROWDROP"},
@@ -61,15 +64,17 @@ func init() {
 		"The count arithmetic over refills is a runtime quantity.")
 	propTable["C08"].KeyFilter["RMGUARD"] = keyHas("no-limit")
 
-	prop("C09", []string{"AGGRSEM", "CLONEFRESH", "ROWCLONE", "KEYFRAME", "RESULTIDX", "PRIMWIRE", "ARITY", "ROWCACHE", "REORDERGUARD", "FOLDKIND"},
-		"Structural necessary conditions of C09: KEYFRAME (group keys frame their components, so distinct tuples never collide), ROWCLONE/CLONEFRESH (each group owns fresh accumulators), AGGRSEM (count/sum/avg/min/max update and complete according to their definitions, integers compared as integers), RESULTIDX (each aggregate's result is substituted into its own call node), PRIMWIRE (each aggregate name has its own constructor and accumulator type), ARITY (constructors index only guaranteed arguments), ROWCACHE (values cached for one pair are not reused for another while grouping).",
+	prop("C09", []string{"AGGRSEM", "CLONEFRESH", "ROWCLONE", "KEYFRAME", "RESULTIDX", "PRIMWIRE", "ARITY", "ROWCACHE", "REORDERGUARD", "FOLDKIND", "AGGRALLFLAG"},
+		"Structural necessary conditions of C09: KEYFRAME (group keys frame their components, so distinct tuples never collide), ROWCLONE/CLONEFRESH (each group owns fresh accumulators), AGGRSEM (count/sum/avg/min/max update and complete according to their definitions, integers compared as integers), RESULTIDX (each aggregate's result is substituted into its own call node), PRIMWIRE (each aggregate name has its own constructor and accumulator type), ARITY (constructors index only guaranteed arguments), ROWCACHE (values cached for one pair are not reused for another while grouping). AGGRALLFLAG (one group for all pairs exactly when there is no GROUP BY), FOLDKIND/REORDERGUARD (arithmetic around aggregates is not rewritten unsoundly).",
 		"The arithmetic of the accumulators on concrete values needs execution.")
 	propTable["C09"].KeyFilter["PRIMWIRE"] = keyHas("aggr")
 	propTable["C09"].KeyFilter["ROWCACHE"] = keyHas("AggregatePlan")
 
-	prop("C10", []string{"LISTCOVER", "BODYKIND", "PRIMWIRE", "ARITY", "ASTIMMUT", "TWINPRIM", "ERRALL"},
-		"Structural necessary conditions of C10: PRIMWIRE (each documented function is registered under its name and both bodies reach the documented primitive on the text argument, base 10, with the length check for distances; no two names share a body except the documented aliases), BODYKIND (bodies return their declared kinds, identically in both modes), LISTCOVER (every list consumer handles every list representation, in both modes), ARITY, ASTIMMUT (constant arguments behave like row-dependent ones: no state is kept in the tree), TWINPRIM (row and vector bodies reach the same primitives).",
+	prop("C10", []string{"LISTCOVER", "BODYKIND", "PRIMWIRE", "ARITY", "ASTIMMUT", "TWINPRIM", "ERRALL", "ROWINDEX", "FOLDKIND", "FOLDERR", "FOLDFLAGS", "STICKYFLAG", "ROWCARRY"},
+		"Structural necessary conditions of C10: PRIMWIRE (each documented function is registered under its name and both bodies reach the documented primitive on the text argument, base 10, with the length check for distances; no two names share a body except the documented aliases), BODYKIND (bodies return their declared kinds, identically in both modes), LISTCOVER (every list consumer handles every list representation, in both modes), ARITY, ASTIMMUT (constant arguments behave like row-dependent ones: no state is kept in the tree), TWINPRIM (row and vector bodies reach the same primitives). ROWINDEX/ROWCARRY (vector bodies read row-dependent arguments per row), FOLDKIND/FOLDERR/FOLDFLAGS/STICKYFLAG(call folding) (a call with constant arguments is folded only when all arguments are literals, evaluation succeeded, and to a literal of the returned kind, so constants and row-dependent arguments agree).",
 		"The computed values themselves need execution.")
+
+	propTable["C10"].KeyFilter["STICKYFLAG"] = keyHas("ExpressionOptimizer")
 
 	prop("C11", []string{"RMGUARD", "DELKEYS", "MUTSITE", "CHILDVISIT", "LIMITWRAP", "LIMITMAP", "ERRPROP", "NOROWDROP", "CONSUMED"},
 		"Structural necessary conditions of C11: DELKEYS (BatchDelete receives exactly the keys of the rows fetched in that iteration), MUTSITE(e) (DELETE issues no Put), RMGUARD with CHILDVISIT(Walk) (direct key removal only without LIMIT and without any AND anywhere in the filter; the walk sees every node), LIMITWRAP/LIMITMAP/CONSUMED/NOROWDROP (the limit is applied to the raw pairs, exactly), ERRPROP in execute.",
